@@ -245,7 +245,9 @@ where
         // Decode how many entries are in this dictionary, and attempt to allocate a map with the necessary capacity.
         let length = decoder.decode_varuint()?;
         let mut map = HashMap::new();
-        map.try_reserve(length)?;
+        // Every entry occupies at least one byte, so never pre-allocate for more entries than there are bytes left:
+        // the announced length comes from untrusted input and must not drive the allocation by itself.
+        map.try_reserve(usize::min(length, decoder.remaining()))?;
 
         // Decode 'length'-many entries into the map.
         decode_dictionary_entries!(map, decoder, length);
